@@ -251,6 +251,15 @@ class Folder:
             left = self._f(n.left, env)
             for op, c in zip(n.ops, n.comparators):
                 right = self._f(c, env)
+                if isinstance(op, (ast.In, ast.NotIn)) and isinstance(left, EnumMember) and isinstance(left.value, int) \
+                        and (isinstance(right, int) or (isinstance(right, EnumMember) and isinstance(right.value, int))):
+                    # Flag containment: `Flag.A in combination` (combinations fold to their int value)
+                    rv = right if isinstance(right, int) else right.value
+                    inside = (left.value & rv) == left.value
+                    if inside != isinstance(op, ast.In):
+                        return False
+                    left = right
+                    continue
                 if not _CMPOPS[type(op)](left, right):
                     return False
                 left = right
